@@ -355,6 +355,7 @@ func main() {
 	}
 	if phase == "all" || phase == "codecs" {
 		codecsPhase(r, thorough)
+		int64Cases(rng.FromEnv(2011), thorough)
 		overlongVarintCases(rng.FromEnv(2020))
 	}
 	if phase == "limiter" {
